@@ -112,7 +112,14 @@ func genLpm(cfg Config, emit func(string, bool, []string)) {
 					}
 				}
 				if ni > 0 && r.IntN(12) == 0 {
-					add("next %d %d", r.IntN(ni), 1+r.IntN(3))
+					it := r.IntN(ni)
+					if r.IntN(2) == 0 {
+						add("iterall %d", it)
+						if r.IntN(2) == 0 {
+							add("iterall %d", it)
+						}
+					}
+					add("next %d %d", it, 1+r.IntN(3))
 				}
 			}
 			if r.IntN(5) == 0 {
@@ -128,6 +135,7 @@ func genLpm(cfg Config, emit func(string, bool, []string)) {
 			add("vlen %d", v)
 		}
 		for i := 0; i < ni; i++ {
+			add("iterall %d", i)
 			add("next %d 1000", i)
 		}
 		emit(fmt.Sprintf("lpm maxbytes=%d", maxBytes), true, ops)
@@ -416,6 +424,19 @@ func (e *lpmExec) Do(o *Out, f []string) string {
 		}
 		e.iters = append(e.iters, &lpmIt{it, want})
 		return fmt.Sprintf("i%d", len(e.iters)-1)
+	case "iterall":
+		// Iterator.All does not consume: it yields everything from the current position, any number of times
+		pi := e.iters[atoi(f[1])]
+		var got []lpmEnt
+		pi.it.All(func(k []byte, v int) bool {
+			d, l := lpm.DecodeLPMKey(k)
+			got = append(got, lpmEnt{append([]byte{}, d...), int(l), v})
+			return true
+		})
+		if !eqLpm(got, pi.want) {
+			o.Fail("C13", "iterator", map[string]string{"op": "iterator-all"}, fmt.Sprintf("retained iterator i%s All(): got %s want %s", f[1], showLpm(got), showLpm(pi.want)))
+		}
+		return showLpm(got)
 	case "next":
 		pi := e.iters[atoi(f[1])]
 		n := atoi(f[2])
